@@ -34,7 +34,13 @@ pub enum Op {
     Ping,
     /// PREPARE answered again with the same id and parameter count (a shim that hands out the
     /// same id for the same text): the statement starts afresh
-    Reprepare { stmt: usize },
+    Reprepare {
+        stmt: usize,
+        /// the client sends COM_STMT_CLOSE for the id first (pending long data is abandoned by the
+        /// close, the next PREPARE hands the id out again)
+        #[serde(default)]
+        close_first: bool,
+    },
 }
 
 #[derive(Clone, Debug, Serialize, Deserialize)]
@@ -71,8 +77,11 @@ pub fn build_history(case: &Case) -> (Conversation, Vec<(u32, Vec<(u8, Inner, Op
     for op in &case.ops {
         match op {
             Op::Ping => cmds.push(Cmd::Ping),
-            Op::Reprepare { stmt } => {
+            Op::Reprepare { stmt, close_first } => {
                 let (id, n) = case.stmts[*stmt];
+                if *close_first {
+                    cmds.push(Cmd::Close { id });
+                }
                 cmds.push(Cmd::Prepare { text: Blob::text("p") });
                 actions.push(Action::Prepare(PrepProg::Reply { id, params: (0..n).map(|i| ColSpec::simple(&format!("p{}", i), T_VAR_STRING, 0)).collect(), cols: vec![] }));
                 pending.retain(|(s, _), _| s != stmt);
@@ -159,7 +168,7 @@ pub fn judge_history(prefix: &str, case: &Case, ex: &mut Exec, check_conv: bool)
                     n_exec += 1;
                     pending.retain(|(s, _), _| s != stmt)
                 }
-                Op::Reprepare { stmt } => pending.retain(|(s, _), _| s != stmt),
+                Op::Reprepare { stmt, .. } => pending.retain(|(s, _), _| s != stmt),
                 Op::Ping => {}
             }
         }
@@ -266,7 +275,7 @@ impl Prop for C16 {
         true
     }
     fn rule(&self) -> String {
-        "cases = 2-4 prepared statements with 1-12 parameters and a history of 2-30 executions; each execution picks a statement and either rebinds (new-params-bound = 1 with freshly generated types, or with the bound types changed only in some signedness flags or in a single position) or reuses (flag = 0, no type block; the first execution after a prepare always binds, as the protocol requires); values are encoded per the types in force in the reference model types[stmt]. One execution in six is answered with an error instead of OK; what is bound persists all the same. Oracle: the shim must see exactly the model's (type code, ValueInner) lists for every execution.  In 1 of 5 executions the shim pulls only a prefix of the parameters (possibly none) from the iterator; what that execution bound must persist all the same. One execution in six has one of its parameters streamed beforehand with COM_STMT_SEND_LONG_DATA (types must survive an execution that consumed long data). One history in ten has the shim hand out an id that is still open for a new statement (same parameter count) in mid-history, after which the next execution binds afresh; one in eight ends with such a new statement being executed *without* binding types (parameters encoded per the old statement's types), which must never reach the shim (half of these tails first CLOSE the old statement, and a third then prepare the new one under another id, with the same or one fewer parameters). Non-trivial = some reuse happens after a rebind of a *different* statement (so a single global type table would be caught), or a reuse follows a rebind to different types of the same statement.".into()
+        "cases = 2-4 prepared statements with 1-12 parameters and a history of 2-30 executions; each execution picks a statement and either rebinds (new-params-bound = 1 with freshly generated types, or with the bound types changed only in some signedness flags or in a single position) or reuses (flag = 0, no type block; the first execution after a prepare always binds, as the protocol requires); values are encoded per the types in force in the reference model types[stmt]. One execution in six is answered with an error instead of OK; what is bound persists all the same. Oracle: the shim must see exactly the model's (type code, ValueInner) lists for every execution.  In 1 of 5 executions the shim pulls only a prefix of the parameters (possibly none) from the iterator; what that execution bound must persist all the same. One execution in six has one of its parameters streamed beforehand with COM_STMT_SEND_LONG_DATA (types must survive an execution that consumed long data). One history in ten has the shim hand out an id that is still open for a new statement (same parameter count) in mid-history (a third of the time after a COM_STMT_CLOSE of it), after which the next execution binds afresh; one in eight ends with such a new statement being executed *without* binding types (parameters encoded per the old statement's types), which must never reach the shim (half of these tails first CLOSE the old statement, and a third then prepare the new one under another id, with the same or one fewer parameters). Non-trivial = some reuse happens after a rebind of a *different* statement (so a single global type table would be caught), or a reuse follows a rebind to different types of the same statement.".into()
     }
     fn assumptions(&self) -> Vec<String> {
         vec!["the recording shim iterates all parameters of every execution, as every caller in the repository does (the library parses the type block lazily inside the iterator)".into()]
@@ -302,7 +311,7 @@ impl Prop for C16 {
             if types[s].is_some() && g.chance(1, 10) {
                 // the shim answers another PREPARE with this (still open) id: a new statement, for
                 // which nothing is bound yet
-                ops.push(Op::Reprepare { stmt: s });
+                ops.push(Op::Reprepare { stmt: s, close_first: g.chance(1, 3) });
                 types[s] = None;
             }
             let rebind = types[s].is_none() || g.chance(2, 5);
